@@ -44,7 +44,7 @@ def _forward_inputs(v):
 def _documented_rejection(v, prim, a, e, f):
     """The documented invalid inputs of reb_particle_from_orbit (rebound.h / tools.c error strings 1..6)."""
     sf, cf = v.eng.trig_pair(f)
-    return z3.Or(e == 1, e < 0, z3.And(e > 1, a > 0), z3.And(e < 1, a < 0), e * cf < -1, prim.m < R(TINY)), cf
+    return z3.Or(e == 1, e < 0, z3.And(e > 1, a > 0), z3.And(e < 1, a < 0), e * cf <= -1, prim.m < R(TINY)), cf
 
 
 @P.task("from_orbit.reject_iff_documented", fn="reb_particle_from_orbit_err")
@@ -61,8 +61,8 @@ def _(v):
     c3 = z3.And(z3.Not(c1), z3.Not(e < 0), e > 1, a > 0)
     c4 = z3.And(z3.Not(c1), z3.Not(e < 0), e < 1, a < 0)
     ok4 = z3.And(z3.Not(c1), z3.Not(e < 0), z3.Not(z3.And(e > 1, a > 0)), z3.Not(z3.And(e < 1, a < 0)))
-    c5 = z3.And(ok4, e * cf < -1)
-    c6 = z3.And(ok4, z3.Not(e * cf < -1), prim.m < R(TINY))
+    c5 = z3.And(ok4, e * cf <= -1)
+    c6 = z3.And(ok4, z3.Not(e * cf <= -1), prim.m < R(TINY))
     for k, c in enumerate((c1, c2, c3, c4, c5, c6), 1):
         v.prove("code%d" % k, (err == k) == c)
     v.prove("code_range", z3.And(err >= 0, err <= 6))
@@ -104,7 +104,7 @@ def _valid_classical(v, G, prim, m, a, e, f, branch):
         v.assume(e < 1, a >= 0)
     else:
         v.assume(e > 1, a <= 0)
-    v.assume(e * cf >= -1)
+    v.assume(e * cf > -1)
     return sf, cf
 
 
